@@ -1394,15 +1394,12 @@ mutant("c10-server-parse-error-dropped", "C10", "C10-D3", "server_conn.go",
 	}
 }""")
 mutant("c10-client-parse-error-ignored", "C10", "C10-D3", "client_manager.go",
-       """			if err != nil {
-				go m.onClose(ReasonParseError, err)
-				return
-			}""",
-       """			if err != nil {
-				continue
-			}""")
+       """					m.onClose(ReasonParseError, err)
+""",
+       """					_ = err
+""")
 mutant("c10-client-parse-error-wrong-reason", "C10", "C10-D3", "client_manager.go",
-       "go m.onClose(ReasonParseError, err)", "go m.onClose(ReasonTransportError, err)")
+       "					m.onClose(ReasonParseError, err)", "					m.onClose(ReasonTransportError, err)")
 mutant("c10-decode-error-swallowed", "C10", "C10-D3", "server_socket.go",
        """	values, err := decode(handler.inputArgs...)
 	if err != nil {
@@ -1536,7 +1533,9 @@ mutant("c10-reflect-isvalid-dropped", "C10", "C10-D7", "parser/json/binary.go",
 mutant("c10-reflect-kind-guard-dropped", "C10", "C10-D7", "parser/json/binary.go",
        "if pholder.Kind() == reflect.Bool && pholder.Bool() && num.Kind() == reflect.Float64 {", "if pholder.Bool() && num.Kind() == reflect.Float64 {", count=0)
 mutant("c10-parse-error-under-lock", "C10", "C10-D8", "client_manager.go",
-       "				go m.onClose(ReasonParseError, err)", "				m.onClose(ReasonParseError, err)")
+       """				go func() {
+					m.eioMu.RLock()""", """				func() {
+					m.eioMu.RLock()""")
 
 # ---------------------------------------------------------------- C06 (round 2)
 mutant("c06-ping-timeout-leaves-transport-open", "C06", "C06-D7", "engine.io/server_socket.go",
@@ -2343,3 +2342,17 @@ mutant("c12-f44-refused-socket-keeps-its-rooms", "C12", "C12-D7", "namespace.go"
        """		socket.leaveAll()
 		return nil, err""",
        """		return nil, err""")
+
+# F45 / F46
+mutant("c08-f45-connect-payload-by-value", "C08", "C08-D11", "client_socket.go",
+       "		v = &m\n", "		v = m\n")
+mutant("c10-f46-parse-error-leaves-connection-open", "C10", "C10-D12", "client_manager.go",
+       """					if eio != nil {
+						eio.Close()
+					}
+""", "					_ = eio\n")
+mutant("c06-f46-parse-error-leaves-connection-open", "C06", "C06-D11", "client_manager.go",
+       """					if eio != nil {
+						eio.Close()
+					}
+""", "					_ = eio\n")
